@@ -81,3 +81,137 @@ def index_bound_violations(func):
             elif reads and isinstance(op, ast.Lt) and unguarded:
                 out.append((c.lineno, '%s[%s] is read while (%s): the bound is only one alternative of an `or`' % (seq, l.id, ast.unparse(w.test))))
     return out
+
+
+def use_before_any_binding(func):
+    """a local name (assigned somewhere in the function, so local by Python's scoping) that is READ at a point in front of
+    which the function text contains no binding of it at all: the first execution of that read raises UnboundLocalError.
+    (Loop targets, with/except targets, imports, parameters, comprehension variables, global/nonlocal names and nested
+    function bodies are taken into account; a read inside a nested def is not judged.)  -> [(name, line)]"""
+    fn = func.node
+    declared = set()
+    for n in ast.walk(fn):
+        if isinstance(n, (ast.Global, ast.Nonlocal)):
+            declared |= set(n.names)
+    params = {a.arg for a in fn.args.posonlyargs + fn.args.args + fn.args.kwonlyargs}
+    if fn.args.vararg:
+        params.add(fn.args.vararg.arg)
+    if fn.args.kwarg:
+        params.add(fn.args.kwarg.arg)
+    nested = set()
+    for n in ast.walk(fn):
+        if n is not fn and isinstance(n, (ast.FunctionDef, ast.Lambda, ast.ClassDef, ast.ListComp, ast.SetComp, ast.DictComp, ast.GeneratorExp)):
+            for x in ast.walk(n):
+                if x is not n:
+                    nested.add(id(x))
+    binds = {}       # name -> earliest (line, col) of a binding
+    def note(name, node):
+        pos = (node.lineno, node.col_offset)
+        if name not in binds or pos < binds[name]:
+            binds[name] = pos
+    for n in ast.walk(fn):
+        if id(n) in nested:
+            continue
+        if isinstance(n, ast.Name) and isinstance(n.ctx, (ast.Store, ast.Del)):
+            note(n.id, n)
+        elif isinstance(n, (ast.Import, ast.ImportFrom)):
+            for a in n.names:
+                note((a.asname or a.name).split('.')[0], n)
+        elif isinstance(n, ast.ExceptHandler) and n.name:
+            note(n.name, n)
+        elif isinstance(n, (ast.FunctionDef, ast.ClassDef)) and n is not fn:
+            note(n.name, n)
+    out = []
+    seen = set()
+    for n in ast.walk(fn):
+        if id(n) in nested or not (isinstance(n, ast.Name) and isinstance(n.ctx, ast.Load)):
+            continue
+        name = n.id
+        if name in params or name in declared or name not in binds or name in seen:
+            continue
+        # an augmented assignment `x += 1` reads x at the position of the statement
+        if (n.lineno, n.col_offset) < binds[name]:
+            out.append((name, n.lineno))
+            seen.add(name)
+    # x += e with no earlier binding: the Store of the AugAssign is itself the earliest "binding"
+    for n in ast.walk(fn):
+        if id(n) in nested:
+            continue
+        if isinstance(n, ast.AugAssign) and isinstance(n.target, ast.Name) and n.target.id not in params and n.target.id not in declared and n.target.id not in seen:
+            name = n.target.id
+            earlier = [m for m in ast.walk(fn) if id(m) not in nested and isinstance(m, ast.Name) and m.id == name and isinstance(m.ctx, ast.Store)
+                       and (m.lineno, m.col_offset) < (n.lineno, n.col_offset) and m is not n.target]
+            other = [m for m in ast.walk(fn) if id(m) not in nested and isinstance(m, (ast.For, ast.comprehension)) and any(isinstance(x, ast.Name) and x.id == name for x in ast.walk(m.target))]
+            if not earlier and not other:
+                out.append((name, n.lineno))
+                seen.add(name)
+    return out
+
+
+def attribute_definitions(repo):
+    """class name -> set of attribute names that can exist on its instances: stored on self in a method of the class (plain
+    assignment, not +=), class-level names, methods; plus, for every class, the names stored on a NON-self receiver
+    anywhere in the package (model.num_students = ..., pair.lp_var = ...) - the receiver's class is not resolved, so those
+    count for all classes (conservative: fewer reports)."""
+    external = set()
+    per_class = {}
+    for rel, tree in repo.trees.items():
+        for n in ast.walk(tree):
+            if isinstance(n, ast.ClassDef):
+                s = per_class.setdefault(n.name, set())
+                for st in n.body:
+                    if isinstance(st, (ast.FunctionDef, ast.ClassDef)):
+                        s.add(st.name)
+                    elif isinstance(st, ast.Assign):
+                        for t in st.targets:
+                            for x in ast.walk(t):
+                                if isinstance(x, ast.Name):
+                                    s.add(x.id)
+                    elif isinstance(st, ast.AnnAssign) and isinstance(st.target, ast.Name):
+                        s.add(st.target.id)
+                for m in ast.walk(n):
+                    if isinstance(m, (ast.Assign, ast.AnnAssign, ast.For, ast.With)):
+                        tgts = m.targets if isinstance(m, ast.Assign) else ([m.target] if isinstance(m, (ast.AnnAssign, ast.For)) else [i.optional_vars for i in m.items if i.optional_vars is not None])
+                        for t in tgts:
+                            for x in ast.walk(t):
+                                if isinstance(x, ast.Attribute) and isinstance(x.ctx, ast.Store) and isinstance(x.value, ast.Name) and x.value.id == 'self':
+                                    s.add(x.attr)
+                    if isinstance(m, ast.Call) and isinstance(m.func, ast.Name) and m.func.id == 'setattr' and len(m.args) == 3 and isinstance(m.args[0], ast.Name) and m.args[0].id == 'self':
+                        if isinstance(m.args[1], ast.Constant):
+                            s.add(m.args[1].value)
+                        else:
+                            s.add('*')
+            if isinstance(n, (ast.Assign, ast.AnnAssign)):
+                tgts = n.targets if isinstance(n, ast.Assign) else [n.target]
+                for t in tgts:
+                    for x in ast.walk(t):
+                        if isinstance(x, ast.Attribute) and isinstance(x.ctx, ast.Store) and not (isinstance(x.value, ast.Name) and x.value.id == 'self'):
+                            external.add(x.attr)
+            if isinstance(n, ast.Call) and isinstance(n.func, ast.Name) and n.func.id == 'setattr' and len(n.args) == 3 and not (isinstance(n.args[0], ast.Name) and n.args[0].id == 'self'):
+                external.add(n.args[1].value if isinstance(n.args[1], ast.Constant) else '*')
+    return per_class, external
+
+
+def never_defined_attributes(repo, func, defs=None):
+    """self.X read in a method of class C where X is defined nowhere for C (see attribute_definitions) and the read is not
+    guarded by hasattr(self, 'X') / inside try.  -> [(attribute, line)]"""
+    if not func.cls:
+        return []
+    per_class, external = defs or attribute_definitions(repo)
+    have = per_class.get(func.cls, set())
+    if '*' in have or '*' in external:
+        return []
+    guarded = {n.args[1].value for n in ast.walk(func.node) if isinstance(n, ast.Call) and isinstance(n.func, ast.Name) and n.func.id in ('hasattr', 'getattr') and len(n.args) >= 2
+               and isinstance(n.args[1], ast.Constant)}
+    in_try = set()
+    for n in ast.walk(func.node):
+        if isinstance(n, ast.Try):
+            for x in ast.walk(n):
+                in_try.add(id(x))
+    out, seen = [], set()
+    for n in ast.walk(func.node):
+        if isinstance(n, ast.Attribute) and isinstance(n.ctx, ast.Load) and isinstance(n.value, ast.Name) and n.value.id == 'self' and id(n) not in in_try:
+            if n.attr not in have and n.attr not in external and n.attr not in guarded and n.attr not in seen and not n.attr.startswith('__'):
+                out.append((n.attr, n.lineno))
+                seen.add(n.attr)
+    return out
